@@ -385,6 +385,44 @@ def _task_joined_descriptors(_):
                                ' and carries the first message bytes'
                                if joined else '', what),
                             {'fdjoin': True}, size=len(idxs))
+    # nested reads with descriptors: the handler of message j reads what is
+    # still to come (one read per message, and one read for all the rest)
+    for idxs in ((1, 1), (1, 3), (2, 1), (7, 1, 2), (1, 8, 2), (5, 8, 1),
+                 (9, 1), (1, 10)):
+        msgs = c20._mk(idxs)
+        for little in (True, False):
+            lens = [len(R.encode_message(
+                1, 50 + k, c20._fields(1, len(fds)), sig, vals,
+                little=little, fds=[])) for k, (sig, vals, fds)
+                in enumerate(msgs)]
+            ends = list(itertools.accumulate(lens))
+            for cuts in (tuple(ends[:-1]), (ends[0],)):
+                # each message's descriptors right before the read holding
+                # it
+                order = []
+                bounds = list(cuts) + [ends[-1]]
+                k = 0
+                for b in bounds:
+                    while k < len(msgs) and ends[k] <= b:
+                        order += ['F'] * len(msgs[k][2])
+                        k += 1
+                    order.append('C')
+                for j in range(len(idxs) - 1):
+                    found = c20.receiver_case(idxs, cuts, tuple(order),
+                                              little, None, nested_at=j)
+                    res.count('states')
+                    res.count('transitions')
+                    res.count('evaluations')
+                    res.count('traces')
+                    res.count('nontrivial')
+                    for tag, what in found:
+                        res.violation(
+                            '%s/nested-descriptors/%s' % (PROP, tag),
+                            'messages %r read at %r, everything behind '
+                            'message %d read from inside its handler: %s'
+                            % ([c20.BODIES[i][0] for i in idxs],
+                               list(cuts), j, what),
+                            {'fdjoin': True}, size=len(idxs))
     return res
 
 
